@@ -38,6 +38,8 @@ VERIF_KINDS = [
     (r"invariant not satisfied", "invariant"),
     (r"loop invariant not", "invariant"),
     (r"decreases not satisfied|could not prove termination|decreases.*not", "termination"),
+    (r"unable to prove post-condition of closure", "postcondition"),
+    (r"unable to prove pre-condition|closure.*precondition", "precondition"),
     (r"recommendation not met", None),  # ignored (warning-like)
     (r"unable to prove assertion safety|cannot prove", "assertion"),
     (r"index out of bounds|possible index", "index"),
@@ -332,7 +334,12 @@ def main():
     for r in results:
         fn_own = {f["id"]: f.get("own", []) for f in r["functions"]}
         for f in r["failures"]:
-            owners = sorted({t.split(".")[0] for t in f["tags"]}) or fn_own.get(f["fn"], [])
+            owners = set(t.split(".")[0] for t in f["tags"]) | set(fn_own.get(f["fn"], []))
+            # a failing obligation inside a function the property depends on counts for the property
+            for pid, sp in pmap.items():
+                if f["fn"] and f["fn"] in sp.get("fns", []):
+                    owners.add(pid)
+            owners = sorted(owners)
             f["owners"] = owners
             (owned_fail if prop in owners else other_fail).append(f)
     # obligations owned by this property
@@ -346,7 +353,7 @@ def main():
                     if tg.split(".")[0] == prop:
                         clauses.append(dict(unit=r["unit"], tag=tg, text=l.strip()))
         for f in r["functions"]:
-            if f["mode"] == "fn" and prop in f.get("own", []):
+            if f["mode"] == "fn" and (prop in f.get("own", []) or f["id"] in spec.get("fns", [])):
                 fn_owned.append(dict(unit=r["unit"], fn=f["id"], file=f["file"], lines=f["lines"], sha256=f["sha256"]))
     n_obl = len(clauses) + len(fn_owned)
     failed_keys = set()
